@@ -5,5 +5,6 @@ CONSTANTS
   HasIds = TRUE
   PrebuiltWrapper = FALSE
   PoolLocked = TRUE
+  StaticScratch = FALSE
   MaxRuns = 1
 INVARIANT RaceFree
